@@ -47,6 +47,23 @@ def build(spec):
     elif k == "cmp":
         a = spec["a"]
         body = "".join(f"print({li.lit(a)} {op} {li.lit(b)})\n" for b in spec["bs"] for op in li.CMP)
+    elif k == "condcmp":
+        a = spec["a"]
+        parts = []
+        for b in spec["bs"]:
+            for op in li.CMP:
+                A, B = li.lit(a), li.lit(b)
+                parts.append(f"if {A} {op} {B} {{\n    print(true)\n}} else {{\n    print(false)\n}}\n"
+                             f"zr := false\nwhile {A} {op} {B} {{\n    zr = true\n    break\n}}\nprint(zr)\n"
+                             f"if false {{\n}} else if {A} {op} {B} {{\n    print(true)\n}} else {{\n    print(false)\n}}\n")
+        body = "".join("{\n" + "".join("    " + l + "\n" for l in p.rstrip("\n").split("\n")) + "}\n" for p in parts)
+    elif k == "chain":
+        x, o1, a, o2, b = spec["x"], spec["o1"], spec["a"], spec["o2"], spec["b"]
+        body = f"x := {li.lit(x)}\nprint(x {o1} {a} {o2} {b})\n"
+    elif k == "rangetwice":
+        a, b = li.lit(spec["a"]), li.lit(spec["b"])
+        body = (f"r := {a} .. {b}\nr[0] = 77\nr += [5]\ns := {a} .. {b}\nprint(s)\nn := 0\nfor [i, v] in {a} .. {b} {{\n    n += 1\n    print(v)\n}}\n"
+                f"print(r === s)\n")
     elif k == "lits":
         body = "".join(f"print({t})\n" for t in spec["lits"])
     elif k == "badlit":
@@ -105,6 +122,42 @@ def judge(spec, r):
                     b, op = spec["bs"][i // len(li.CMP)], li.CMP[i % len(li.CMP)]
                     return False, f"{a} {op} {b}: mathematically {e}, printed {g!r} {err[:120]}"
             return False, f"comparison script: status {st}, {len(got)} of {len(exp)} lines: {err[:160]}"
+        return True, ""
+    if k == "condcmp":
+        a = spec["a"]
+        exp = [("true" if li.compare(a, op, b) else "false") for b in spec["bs"] for op in li.CMP for _ in range(3)]
+        got = out.split("\n")[:-1]
+        if st != "0" or got != exp:
+            for i, (e, g) in enumerate(zip(exp, got + [None] * len(exp))):
+                if e != g:
+                    b, op = spec["bs"][i // (3 * len(li.CMP))], li.CMP[(i // 3) % len(li.CMP)]
+                    where = ["if", "while", "else if"][i % 3]
+                    return False, f"{a} {op} {b} as the condition of `{where}`: mathematically {e}, the branch taken says {g!r} {err[:120]}"
+            return False, f"condition script: status {st}, {len(got)} of {len(exp)} lines: {err[:160]}"
+        return True, ""
+    if k == "chain":
+        x, o1, a, o2, b = spec["x"], spec["o1"], spec["a"], spec["o2"], spec["b"]
+        first = li.exact(x, o1, a)
+        second = li.exact(first, o2, b) if first is not None else None
+        if second is None:
+            if st != "103" or out != "":
+                return False, (f"{x} {o1} {a} {o2} {b} groups as ({x} {o1} {a}) {o2} {b}: "
+                               f"{'the first' if first is None else 'the second'} operation has no 64-bit result, "
+                               f"yet status {st}, printed {out!r}")
+            nums = li.ints_in(re.sub(r"^[^ ]*:\d+:\d+: ", "", err.split("\n")[0]))
+            fa, fb = (x, a) if first is None else (first, b)
+            if fa not in nums or fb not in nums:
+                return False, f"the overflow diagnostic of {x} {o1} {a} {o2} {b} does not name the operands {fa} and {fb} of the failing operation: {err[:200]!r}"
+            return True, ""
+        if st != "0" or out != f"{second}\n":
+            return False, f"{x} {o1} {a} {o2} {b} = {second} (every intermediate result fits), got status {st}, printed {out!r} {err[:120]}"
+        return True, ""
+    if k == "rangetwice":
+        a, b = spec["a"], spec["b"]
+        exp = list(range(a, b))
+        want = "[\n" + "".join(f"    {v},\n" for v in exp) + "]\n" + "".join(f"{v}\n" for v in exp) + "false\n"
+        if st != "0" or out != want:
+            return False, f"{a} .. {b} evaluated again after the first result was changed: expected {exp} both times and two distinct lists; printed {out[:120]!r} status {st} {err[:100]}"
         return True, ""
     if k == "lits":
         exp = [lit_value(t) for t in spec["lits"]]
@@ -263,6 +316,29 @@ def literal_specs(rng, n, chunk=25):
     return specs
 
 
+def cond_cmp_specs(grid):
+    return [{"k": "condcmp", "a": a, "bs": list(grid)} for a in grid]
+
+
+def chain_specs():
+    xs = [MAX, MAX - 1, MAX - 2, MIN, MIN + 1, MIN + 2, 0, 5, -5, 2 ** 62, -2 ** 62]
+    out = []
+    for x in xs:
+        for o1 in ("+", "-"):
+            for o2 in ("+", "-"):
+                for a, b in ((1, 1), (1, 2), (2, 1), (3, 3), (1, 0), (0, 1)):
+                    out.append({"k": "chain", "x": x, "o1": o1, "a": a, "o2": o2, "b": b})
+    for x in (MAX, MIN, 3037000500, -3037000500):
+        for o1, o2 in (("*", "/"), ("/", "*"), ("*", "%")):          # one tier: grouped left to right
+            for a, b in ((2, 2), (1, 1), (3, 3)):
+                out.append({"k": "chain", "x": x, "o1": o1, "a": a, "o2": o2, "b": b})
+    return out
+
+
+def range_twice_specs():
+    return [{"k": "rangetwice", "a": a, "b": clamp(a + d)} for a in (0, 1, -2, MAX - 6, MIN, 7) for d in (1, 2, 5)]
+
+
 def range_specs(rng, n):
     specs = []
     starts = [0, 1, -1, -3, MAX, MAX - 1, MAX - 3, MAX - 40, MIN, MIN + 1, MIN + 3, 2 ** 31 - 2, -2 ** 31 - 2, 2 ** 32 - 1]
@@ -383,6 +459,9 @@ def run(ctx, model_ok):
     run_stream(ctx, "random-cmp", random_cmp_specs(rng, 400000 if thorough else 10000), model_ok)
     run_stream(ctx, "literals", literal_specs(rng, 60000 if thorough else 2000), model_ok)
     run_stream(ctx, "ranges", range_specs(rng, 3000 if thorough else 200), model_ok)
+    run_stream(ctx, "comparisons-as-conditions", cond_cmp_specs(grid), model_ok)
+    run_stream(ctx, "offset-chains", chain_specs(), model_ok)
+    run_stream(ctx, "ranges-evaluated-twice", range_twice_specs(), model_ok)
     # `x op= y` always equals `x = x op y`, for operands of every kind: same output, same outcome, same message
     pairs = meta_pairs()
     srcs = [build(s) for p in pairs for s in p]
